@@ -19,6 +19,7 @@ import (
 type oplProg struct {
 	Src    string `json:"src"`
 	Engine bool   `json:"engine"` // also evaluate through a real server configured with the program
+	LeafC  string `json:"leafc"`  // how the leaf c is spelled: inc | trav_rel | trav_perm | perm
 }
 
 type oplTypeProg struct {
@@ -32,6 +33,8 @@ type oplIn struct {
 	Lex       [][]string    `json:"lex"`   // character sequences of OplLex.tla
 	Texts     []string      `json:"texts"` // whole programs / byte strings (base64 not needed: JSON strings, invalid UTF-8 as \u escapes is not possible, see Raw)
 	Raw       [][]int       `json:"raw"`   // byte strings given as integer arrays
+	// Skip: per kind, indices that are not run (done in an earlier attempt, or the process died on them)
+	Skip map[string][]int `json:"skip"`
 }
 
 var oplChar = map[string]string{"E": "é", "B": "\x80"}
@@ -132,7 +135,16 @@ func (e *storeEnv) parseTotal(src string, transports bool) (o parseObs) {
 func evalChild(c ast.Child, val map[string]bool) bool {
 	switch x := c.(type) {
 	case *ast.ComputedSubjectSet:
+		if x.Relation == "q" { // permits.q is the leaf c
+			return val["c"]
+		}
 		return val[x.Relation]
+	case *ast.TupleToSubjectSet:
+		// the leaf c through a traversal of D.par: holds iff it holds on the (one) parent
+		if x.Relation != "par" || (x.ComputedSubjectSetRelation != "c" && x.ComputedSubjectSetRelation != "q") {
+			panic(fmt.Sprintf("unexpected traversal %s -> %s", x.Relation, x.ComputedSubjectSetRelation))
+		}
+		return val["c"]
 	case *ast.InvertResult:
 		return !evalChild(x.Child, val)
 	case *ast.SubjectSetRewrite:
@@ -213,9 +225,17 @@ func progObs(t *testing.T, p oplProg) map[string]any {
 			var stored []*ketoapi.RelationTuple
 			for _, l := range []string{"a", "b", "c"} {
 				if v[l] {
-					stored = append(stored, &ketoapi.RelationTuple{Namespace: "D", Object: "d", Relation: l, SubjectID: ptr("u")})
+					obj := "d"
+					if l == "c" && (p.LeafC == "trav_rel" || p.LeafC == "trav_perm") {
+						obj = "e" // the leaf holds on the parent
+					}
+					stored = append(stored, &ketoapi.RelationTuple{Namespace: "D", Object: obj, Relation: l, SubjectID: ptr("u")})
 				}
 			}
+			// d always has the parent e (and a second parent on which nothing holds)
+			stored = append(stored,
+				&ketoapi.RelationTuple{Namespace: "D", Object: "d", Relation: "par", SubjectSet: &ketoapi.SubjectSet{Namespace: "D", Object: "e"}},
+				&ketoapi.RelationTuple{Namespace: "D", Object: "d", Relation: "par", SubjectSet: &ketoapi.SubjectSet{Namespace: "D", Object: "f"}})
 			writeOrdered(t, reg, stored)
 			ctx, cancel := context.WithCancel(context.Background())
 			ok, err := reg.PermissionEngine().CheckIsMember(ctx, internalTuple(t, reg, &ketoapi.RelationTuple{Namespace: "D", Object: "d", Relation: "p", SubjectID: ptr("u")}), 0)
@@ -294,8 +314,25 @@ func famOPL(t *testing.T) {
 	si, sn := shard()
 	e := newStoreEnv(t, storeNamespaces(), *fSeed)
 	e.sx = schema.NewHandler(e.reg)
+	skip := map[string]map[int]bool{}
+	for k, l := range in.Skip {
+		skip[k] = map[int]bool{}
+		for _, i := range l {
+			skip[k][i] = true
+		}
+	}
+	// a start marker before every item: if the process dies, the item it died on is the started one without a result
+	begin := func(kind string, i int) bool {
+		if i%sn != si || skip[kind][i] {
+			return false
+		}
+		out.write(map[string]any{"start": kind, "i": i})
+		out.soft()
+		return true
+	}
+	defer out.soft()
 	for i, p := range in.TypeProgs {
-		if i%sn != si {
+		if !begin("typeprog", i) {
 			continue
 		}
 		p := p
@@ -305,7 +342,7 @@ func famOPL(t *testing.T) {
 		out.write(r)
 	}
 	for i, p := range in.Progs {
-		if i%sn != si {
+		if !begin("prog", i) {
 			continue
 		}
 		p := p
@@ -315,7 +352,7 @@ func famOPL(t *testing.T) {
 		out.write(r)
 	}
 	for i, chars := range in.Lex {
-		if i%sn != si {
+		if !begin("lex", i) {
 			continue
 		}
 		src := oplText(chars)
@@ -333,13 +370,13 @@ func famOPL(t *testing.T) {
 		out.write(res)
 	}
 	for i, txt := range in.Texts {
-		if i%sn != si {
+		if !begin("text", i) {
 			continue
 		}
 		out.write(map[string]any{"text": i, "parse": e.parseTotal(txt, true)})
 	}
 	for i, raw := range in.Raw {
-		if i%sn != si {
+		if !begin("raw", i) {
 			continue
 		}
 		b := make([]byte, len(raw))
